@@ -868,5 +868,9 @@ func (r *Run) assert(st *State, c *smt.Term, label string, pos token.Pos) {
 	if len(r.Samples) < 6 {
 		r.Samples = append(r.Samples, fmt.Sprintf("%s @%s: %s", label, st.pos(pos), res))
 	}
+	if st.Rp != nil && res == smt.Sat {
+		// schedule replay: the model may well continue past a failing assertion
+		return
+	}
 	st.Assume(c)
 }
